@@ -100,6 +100,24 @@ def run(ctx):
         ctx.note("R19.12: the queue operations are not evaluable as a whole (%s); the guards of the decrements are examined one by one (R19.5)" % e)
 
     # ---- R19.5
+    # functions that run only as part of clearSlot / handleMidi (helpers the two hand their work to): where the queue evaluation
+    # R19.12 has interpreted those two as wholes - helpers in place, over all queue states - it has decided what their
+    # decrements do, and the guard-by-guard reading below is a note there
+    callers5 = {}
+    for q_, fl_ in u.functions.items():
+        for f_ in fl_:
+            if u.body(f_) is None or not (A.loc(f_)[0] or "").endswith(UNIT):
+                continue
+            for c_ in A.walk(u.body(f_)):
+                if c_.get("kind") in ("CallExpr", "CXXMemberCallExpr"):
+                    nm_ = A.callee_name(c_) or (A.strip_casts(A.kids(c_)[0]).get("name") if A.kids(c_) else None)
+                    if nm_:
+                        callers5.setdefault(nm_, set()).add(q_.split("::")[-1])
+    inside5 = {"clearSlot", "handleMidi"}
+    for _ in range(4):
+        for nm_, cs_ in callers5.items():
+            if nm_ not in inside5 and cs_ and cs_ <= inside5 and any(q_.split("::")[-1] == nm_ for q_ in u.functions):
+                inside5.add(nm_)
     qlen_field = None
     n5 = 0
     for q, fns in sorted(u.functions.items()):
@@ -142,11 +160,16 @@ def run(ctx):
                     try:
                         w = _queue_witness(u, sentinel, member_text, x, tgt, is_sent, conds, cconds, binds, q)
                     except AnalysisBroken as e5:
-                        if queue_decided and (q.split("::")[-1] in ("clearSlot", "handleMidi") or (site_q or "").split("::")[-1] in ("clearSlot", "handleMidi")):
+                        if queue_decided and (q.split("::")[-1] in inside5 or (site_q or "").split("::")[-1] in inside5):
                             ctx.note("R19.5: %s - decided by the evaluation of the queue operations (R19.12)" % e5)
                             w = None
                         else:
                             raise
+                    if w is not None and queue_decided and q.split("::")[-1] in inside5 - {"clearSlot", "handleMidi"}:
+                        # a helper that runs only inside the two evaluated operations: its guards are the callers' (a search result, an
+                        # early return) and R19.12 has run it in place on every queue state
+                        ctx.note("R19.5: %s: the guards of `%s--` are not read off the helper alone (%s) - decided by the evaluation of the queue operations (R19.12)" % (q, member_text(tgt), w.get("reason", w)))
+                        w = None
                     if w is not None:
                         witness = dict(w, **({"called_from": site_q} if site_q else {}))
                         break
